@@ -32,9 +32,9 @@ def _request(draw):
     fc = draw(st.sampled_from([1, 2, 3, 4, 5, 6, 15, 16, 22, 23, 8, 17]))
     a = draw(st.integers(0, 200))
     if fc in (1, 2):
-        return ['req:%d' % fc, {'address': a, 'quantity': draw(st.integers(1, 40))}]
+        return ['req:%d' % fc, {'address': a, 'quantity': draw(st.one_of(st.integers(1, 40), st.integers(1, 40), st.sampled_from([976, 977, 1000, 1999, 2000])))}]
     if fc in (3, 4):
-        return ['req:%d' % fc, {'address': a, 'quantity': draw(st.integers(1, 12))}]
+        return ['req:%d' % fc, {'address': a, 'quantity': draw(st.one_of(st.integers(1, 12), st.integers(1, 12), st.sampled_from([61, 62, 63, 124, 125])))}]
     if fc == 5:
         return ['req:5', {'address': a, 'value': draw(st.sampled_from([0xFF00, 0]))}]
     if fc == 6:
@@ -46,7 +46,7 @@ def _request(draw):
     if fc == 22:
         return ['req:22', {'address': a, 'and_mask': draw(gens.u16()), 'or_mask': draw(gens.u16())}]
     if fc == 23:
-        return ['req:23', {'read_address': a, 'read_quantity': draw(st.integers(1, 8)), 'write_address': a,
+        return ['req:23', {'read_address': a, 'read_quantity': draw(st.one_of(st.integers(1, 8), st.sampled_from([62, 125]))), 'write_address': a,
                            'registers': draw(st.lists(gens.u16(), min_size=1, max_size=3))}]
     if fc == 8:
         return ['req:8', {'sub': draw(st.sampled_from([0, 2, 10, 11, 14])), 'data': [draw(gens.u16())]}]
